@@ -274,6 +274,81 @@ def check_round2(prog, ctx):
                           "`%s`: scaled by the interval length in the first branch=%s, in the second branch=%s, by a common statement after them=%s; "
                           "each branch must be scaled exactly once" % (nm, s1, s2, bool(common)))
     ctx.floor("C09.D7", n7, 1, "weight definitions in the moment-matching / nnls branches")
+    check_degree_search_start(prog, ctx)
+    check_basis_stored_at_its_point(prog, ctx)
+
+
+def check_degree_search_start(prog, ctx, rule="C09.D9"):
+    """D9: the degree search of get_1D_weights_and_order returns (W, D): the weights and degree of the last accepted rule.  Where the
+    start value of W lacks the scaling to [a, b] that every accepted rule receives inside the loop (the trapezoidal weights on the
+    normalised grid), the search has to start at the start value of D: then the start weights are returned only when the rule of the start
+    degree itself is rejected.  A search that starts above it returns the unscaled start weights whenever the first higher degree is
+    rejected (3 strongly graded points)."""
+    n = 0
+    for ci in prog.all_subclasses(prog.cls("Grid.GlobalGrid")):
+        fi = ci.methods.get("get_1D_weights_and_order")
+        if fi is None:
+            continue
+        loops = [st for st in fi.node.body if isinstance(st, (ast.While, ast.For))]
+        rets = [st for st in fi.node.body if isinstance(st, ast.Return) and isinstance(st.value, ast.Tuple) and len(st.value.elts) == 2
+                and all(isinstance(e, ast.Name) for e in st.value.elts)]
+        if not loops or not rets:
+            continue
+        loop = loops[-1]
+        W, D = (e.id for e in rets[-1].value.elts)
+        params = set(fi.params)
+
+        def interval_scaled(expr):
+            return any(isinstance(y, ast.BinOp) and isinstance(y.op, ast.Sub) and isinstance(y.left, ast.Name) and isinstance(y.right, ast.Name)
+                       and y.left.id in params and y.right.id in params for y in ast.walk(expr))
+        before = fi.node.body[:fi.node.body.index(loop)]
+
+        def defs(name, stmts):
+            out = []
+            for st in stmts:
+                for x in ast.walk(st):
+                    if isinstance(x, ast.Assign) and any(isinstance(t_, ast.Name) and t_.id == name for t_ in x.targets):
+                        out.append(x)
+            return out
+        w0 = defs(W, before)
+        win = defs(W, loop.body)
+        d0 = [x for x in defs(D, before) if isinstance(x.value, ast.Constant)]
+        if not w0 or not win or not d0:
+            continue
+        # scaling of the accepted rule: follow one copy  W = V, V = <scaled>
+        def scaled_def(x, stmts, depth=2):
+            if interval_scaled(x.value):
+                return True
+            if depth and isinstance(x.value, ast.Name):
+                return any(scaled_def(y, stmts, depth - 1) for y in defs(x.value.id, stmts))
+            return False
+        in_scaled = all(scaled_def(x, loop.body) for x in win)
+        start_scaled = scaled_def(w0[-1], before)
+        if not in_scaled or start_scaled:
+            continue
+        # first degree the loop computes
+        first = None
+        if isinstance(loop, ast.For) and isinstance(loop.iter, ast.Call) and isinstance(loop.iter.func, ast.Name) and loop.iter.func.id == "range":
+            a_ = loop.iter.args
+            first = 0 if len(a_) == 1 else (a_[0].value if isinstance(a_[0], ast.Constant) else None)
+        elif isinstance(loop, ast.While):
+            counters = [x.target.id for st in loop.body for x in ast.walk(st) if isinstance(x, ast.AugAssign) and isinstance(x.target, ast.Name)
+                        and any(isinstance(y, ast.Name) and y.id == x.target.id for y in ast.walk(loop.test))]
+            for cn in counters[:1]:
+                c0 = [x for x in defs(cn, before) if isinstance(x.value, ast.Constant)]
+                first = c0[-1].value.value if c0 else None
+        if first is None:
+            continue
+        ctx.touch(fi)
+        n += 1
+        ok = first == d0[-1].value.value
+        ctx.check(ok, rule, R.key_of(fi, "search-starts-at-the-start-degree"), fi.loc(loop),
+                  "the degree search starts at the degree (%r) whose unscaled start weights it may fall back to" % d0[-1].value.value,
+                  "`%s` starts with weights that are not scaled to [a, b] and degree %r, but the search loop computes its first rule for degree %r: when "
+                  "that rule is rejected the unscaled start weights are returned (every accepted rule is scaled by (b - a) / 2 inside the loop)"
+                  % (src(w0[-1]), d0[-1].value.value, first))
+    if n == 0:
+        ctx.note(rule, "Grid.GlobalGrid::degree-search", "sparseSpACE/Grid.py", "no degree search with unscaled start weights found: rule not applicable")
 
 
 def check_modified_small_cases(prog, ctx, cw):
@@ -361,3 +436,62 @@ def check_modified_small_cases(prog, ctx, cw):
     ctx.check(ok4, "C09.D4", R.key_of(cw, "modified-4-points"), cw.loc(cases[4][2][0].ast) if 4 in cases and 2 in cases[4] else cw.loc(),
               "4 points, modified basis: w1 + w2 == b - a and w2 integrates the extrapolated basis (x - x1)/(x2 - x1) exactly",
               "4-point modified-basis weights: " + why)
+
+
+def check_basis_stored_at_its_point(prog, ctx, rule="C09.D10"):
+    """D10: a hierarchical basis function (and its weight) is stored at the list position of its own point.  In every method of the
+    global basis grids, the position I of `self.basis[d][I] = B` is `G.index(X)` (fails loudly when X is no grid point), or the result of a
+    sorted search (bisect / searchsorted) of X in G guarded by the equality `G[I] == X` -- a sorted search alone returns an insertion
+    position for ANY X, so the basis of a point that is not in the grid would overwrite its neighbour's."""
+    SEARCH = {"bisect_left", "bisect", "bisect_right", "searchsorted"}
+    n = 0
+    for ci in prog.all_subclasses(prog.cls("Grid.GlobalBasisGrid")):
+        for fi in ci.methods.values():
+            stores = [st for st in walk_local(fi.node) if isinstance(st, ast.Assign) and len(st.targets) == 1
+                      and isinstance(st.targets[0], ast.Subscript) and isinstance(st.targets[0].value, ast.Subscript)
+                      and isinstance(st.targets[0].value.value, ast.Attribute) and st.targets[0].value.value.attr == "basis"
+                      and R.attr_chain(st.targets[0].value.value.value) == [fi.self_name] and isinstance(st.targets[0].slice, ast.Name)]
+            if not stores:
+                continue
+            ctx.touch(fi)
+            tm = Terms(fi.node, max_depth=0)
+            for k, st in enumerate(stores):
+                I = st.targets[0].slice.id
+                b = R.reaching_unique_def(fi, I, st.targets[0].slice)
+                v = b.value if b is not None and b.kind == "assign" else None
+                while isinstance(v, ast.Call) and isinstance(v.func, ast.Name) and v.func.id == "int" and len(v.args) == 1 and not v.keywords:
+                    v = v.args[0]
+                if not isinstance(v, ast.Call):
+                    ctx.note(rule, R.key_of(fi, "basis-position#%d" % k), fi.loc(st), "position `%s` is not a single search result: not decided" % I)
+                    continue
+                fname = v.func.attr if isinstance(v.func, ast.Attribute) else (v.func.id if isinstance(v.func, ast.Name) else None)
+                if fname == "index" and isinstance(v.func, ast.Attribute) and len(v.args) == 1:
+                    n += 1
+                    ctx.ok(rule, R.key_of(fi, "basis-position#%d" % k), fi.loc(st), "`%s` is %s: the position of the basis point in the grid" % (I, src(v)))
+                    continue
+                if fname in SEARCH:
+                    args = list(v.args)
+                    if isinstance(v.func, ast.Attribute) and fname == "searchsorted" and len(args) == 1:
+                        args = [v.func.value] + args
+                    if len(args) < 2:
+                        ctx.note(rule, R.key_of(fi, "basis-position#%d" % k), fi.loc(st), "unrecognised search call %s" % src(v))
+                        continue
+                    n += 1
+                    G, X = args[0], args[1]
+                    want = []
+                    for l_, r_ in ((ast.Subscript(value=G, slice=ast.Name(id=I, ctx=ast.Load()), ctx=ast.Load()), X),):
+                        for a_, b_ in ((l_, r_), (r_, l_)):
+                            want.append(tm.term(ast.Compare(left=a_, ops=[ast.Eq()], comparators=[b_])))
+                    guards = [g for (g, _n) in R.dominating_guards(fi, cfg_of(fi).node_of(st), tm)]
+                    def close(g):
+                        # isclose(G[I], X)
+                        return g[0] == "call" and "isclose" in repr(g[1]) and repr(tm.term(X)) in repr(g) and repr(tm.term(ast.Subscript(value=G, slice=ast.Name(id=I, ctx=ast.Load()), ctx=ast.Load()))) in repr(g)
+                    ok = any(g in want or close(g) for g in guards)
+                    ctx.check(ok, rule, R.key_of(fi, "basis-position#%d" % k), fi.loc(st),
+                              "the sorted search for the basis point is confirmed by `%s[%s] == %s`" % (src(G), I, src(X)),
+                              "`%s` stores the basis at `%s = %s`, an insertion position that exists for every value: without the test "
+                              "`%s[%s] == %s` on the way, the basis of a point that is not in this grid replaces the basis (and weight) of its "
+                              "right neighbour" % (src(st), I, src(v), src(G), I, src(X)))
+                    continue
+                ctx.note(rule, R.key_of(fi, "basis-position#%d" % k), fi.loc(st), "position `%s = %s` not recognised: not decided" % (I, src(v)))
+    ctx.floor(rule, n, 1, "stores of a basis function at a searched position")
